@@ -46,4 +46,24 @@ PROPS = {
             rapid("c15", "TestPropParse", quick=(60000, 2), thorough=(600000, 4)),
         ],
     },
+    "C16": {
+        "level": "exploration",
+        "rule": "valid UTF-8 strings over an alphabet of printable ASCII, '&', '-', '+', ',', '/', controls, 2/3/4-byte code points, "
+                "U+FFFD and UTF-8 length boundaries (random to length 300; exhaustive to length 3 quick / 5 thorough over 14 symbols) "
+                "encoded and compared with an independent RFC 3501 5.1.3 reference codec and round-tripped; decoder inputs (exhaustive "
+                "over a 12-symbol shift/base64 alphabet to length 5 quick / 7 thorough, random bytes, mutated valid encodings) compared "
+                "differentially with the reference decoder (accept iff reference accepts, equal output, valid UTF-8, no panic); every "
+                "case additionally driven through the raw Transformer with drawn source-window and destination-buffer sizes 1..8 and "
+                "4096 by a conforming driver and required to equal the one-shot result. Non-trivial: encoded string with >=1 shifted "
+                "run and >=1 of {'&', control, 4-byte code point}; decoder input containing '&'. Distinct by hash of the input.",
+        "assumptions": ["non-canonical base64 tail bits are not required to be rejected (not listed by the property)",
+                        "the reference codec shares encoding/base64 and unicode/utf16 from the Go standard library"],
+        "units": [
+            plain("c16", "TestReplayRegressions"),
+            plain("c16", "TestEnumEncode", shards_q=2, shards_t=14),
+            plain("c16", "TestEnumDecode", shards_q=4, shards_t=12),
+            rapid("c16", "TestPropRoundTrip", quick=(30000, 3), thorough=(400000, 8)),
+            rapid("c16", "TestPropDecode", quick=(40000, 3), thorough=(500000, 8)),
+        ],
+    },
 }
